@@ -112,6 +112,8 @@ def fixed_streams():
         [a(1), hold(r=b(1), k=1, _generated=t0), b(2)],
         [c1(a=["x"], b="y", _generated=t0), c2(a="p", listb="q", _generated=t0), c2(a="r", listb="s", _generated=t0)],
         [a(1), GroupedRecord("fs/grp", [b(1), a(2)]), b(2)],
+        # a group whose FIRST member's type is already defined when the group is written and whose second is not
+        [a(1), GroupedRecord("fs/grp2", [a(2), b(1)]), a(3), b(2)],
     ]
     # one record holding PARTIALLY filled values of the structured field types (a record "partially filled" on reading would
     # go unnoticed if every written value were complete): digests with one or two of the three hashes, both path / command
@@ -131,7 +133,7 @@ def fixed_streams():
         out.append((items, [recgen.obs_item(x) for x in items], sc.write_stream_bytes(items)))
     # two streams one after the other in one file (cat a.records b.records; a second writer appending): the second header
     # and the repeated definitions are skipped, every record of both parts is read
-    for first, second in ((seqs[0], seqs[1]), (seqs[4], seqs[2])):
+    for first, second in ((seqs[0], seqs[1]), (seqs[4], seqs[2]), (seqs[5], seqs[0])):
         items = first + second
         out.append((items, [recgen.obs_item(x) for x in items], sc.write_stream_bytes(first) + sc.write_stream_bytes(second), "concat"))
     return out
